@@ -332,14 +332,28 @@ def reject_task(t):
                     for i in path[:-1]:
                         tgt = tgt[i]
                     tgt[path[-1]] = b
-                    st["executions"] += 1
-                    try:
-                        mk().pack(v)
-                        report("out-of-range-plain-value-accepted", shape, v if len(v) < 8 else "%s at position %s" % (b, path), "pack accepted the leaf value %d (modulus %d)" % (b, m))
-                    except ValueError:
-                        pass
-                    except Exception as ex:  # noqa: BLE001
-                        report("out-of-range-plain-value-wrong-exception", shape, b, type(ex).__name__)
+                    for mode in ("checked", "ignore_errors", "false-guard"):
+                        if mode != "checked" and (len(good) == 40 or m not in (3, 200, 256, 1000)):
+                            continue
+                        st["executions"] += 1
+                        H.reset(bitlength=24)
+                        try:
+                            if mode == "ignore_errors":
+                                H.rt.ignore_errors(True)
+                                try:
+                                    mk().pack(v)
+                                finally:
+                                    H.rt._ignore_errors = False
+                            elif mode == "false-guard":
+                                H.rt.guarded(H.boolean.PrivValBool(0))(lambda: mk().pack(v))()
+                            else:
+                                mk().pack(v)
+                            report("out-of-range-plain-value-accepted", shape, v if len(v) < 8 else "%s at position %s" % (b, path),
+                                   "pack accepted the leaf value %d (modulus %d)%s" % (b, m, "" if mode == "checked" else " (%s: a plain value is known when tracing, its rejection does not depend on the mode)" % mode))
+                        except ValueError:
+                            pass
+                        except Exception as ex:  # noqa: BLE001
+                            report("out-of-range-plain-value-wrong-exception", shape, b, type(ex).__name__)
     return {"st": st, "viols": viols, "states": 0}
 
 
